@@ -620,10 +620,12 @@ class DiskModel(Model):
             return VU(st.ghost["DISK"][recv.t])
         if isinstance(recv, VU) and name == "is_file":
             self._facts(st)
+            self.fs_access(st, recv.t, node.lineno, name)
             return VBool(st.ghost["DSTATE"][recv.t] == 2)
         if isinstance(recv, VU) and name in ("resolve", "expanduser"):
-            f = z3.Function("P_" + name, U, U)
-            return VU(f(recv.t))
+            # A-SYMLINK: no symlinks / '~' involved: lexical identity
+            eng.used_assumptions.add("A-SYMLINK")
+            return VU(recv.t)
         if isinstance(recv, VU) and name == "mkdir":
             eng.eval_args(st, node)
             st.ghost["FXN"] = VInt(st.ghost["FXN"].t + 1)
